@@ -510,12 +510,27 @@ func (e *execer) run() (f *fail) {
 		height := e.heightOf(i + 1)
 		var root []byte
 		var err error
+		// the store gets private copies of the caller's buffers; they are overwritten as soon as the call returns
+		// (the caller owns them), so any aliasing inside the tree shows up in later reads
+		kvs := mx.ToKV(cloneKVs(b.KV))
+		scribble := func() {
+			for _, kv := range kvs {
+				for i := range kv.Key {
+					kv.Key[i] = 0xAA
+				}
+				for i := range kv.Value {
+					kv.Value[i] = 0x55
+				}
+			}
+		}
 		switch b.Op {
 		case "set":
-			root, err = store.Set(&types.StoreSet{StateHash: parent, KV: mx.ToKV(b.KV), Height: height}, b.Sync)
+			root, err = store.Set(&types.StoreSet{StateHash: parent, KV: kvs, Height: height}, b.Sync)
+			scribble()
 			e.st.add("batches_set", 1)
 		case "memset":
-			root, err = store.MemSet(&types.StoreSet{StateHash: parent, KV: mx.ToKV(b.KV), Height: height}, b.Sync)
+			root, err = store.MemSet(&types.StoreSet{StateHash: parent, KV: kvs, Height: height}, b.Sync)
+			scribble()
 			if err == nil {
 				var r2 []byte
 				r2, err = store.Commit(&types.ReqHash{Hash: root})
@@ -782,6 +797,14 @@ func childMain(in []byte) (any, error) {
 	return out, nil
 }
 
+func cloneKVs(kvs []mx.KV) []mx.KV {
+	out := make([]mx.KV, len(kvs))
+	for i, kv := range kvs {
+		out[i] = mx.KV{K: append([]byte{}, kv.K...), V: append([]byte{}, kv.V...)}
+	}
+	return out
+}
+
 func trimBatch(b mx.Batch) mx.Batch {
 	if len(b.KV) > 3 {
 		b.KV = b.KV[:3]
@@ -839,7 +862,7 @@ func run(c *lib.Ctx) {
 		load[m] += w.cost
 	}
 	lib.Parallel(len(chunks), 16, func(k int) {
-		res := c.Child("hist", childIn{Seed: c.Seed, Tier: c.Tier, Indices: chunks[k]}, lib.ChildOpts{Timeout: 20 * time.Minute})
+		res := c.Child("hist", childIn{Seed: c.Seed, Tier: c.Tier, Indices: chunks[k]}, lib.ChildOpts{Timeout: 30 * time.Minute, Env: []string{"GOGC=200"}})
 		if res.TimedOut {
 			c.Inconclusive("child for histories %v hit the watchdog", chunks[k])
 			return
